@@ -841,6 +841,9 @@ class CallMixin:
             P.axioms.append(f(th.Empty) == B.Empty)
             P.axioms.append(z3.ForAll([x], f(th.Unit(x)) == x, patterns=[f(th.Unit(x))]))
             P.axioms.append(z3.ForAll([a, b], f(th.App(a, b)) == B.App(f(a), f(b)), patterns=[f(th.App(a, b))]))
+            # short sequences, stated directly (a pointwise-defined sequence is not syntactically a Unit)
+            P.axioms.append(z3.ForAll([a], z3.Implies(th.Len(a) == 1, f(a) == th.Idx(a, 0)), patterns=[f(a)]))
+            P.axioms.append(z3.ForAll([a], z3.Implies(th.Len(a) == 0, f(a) == B.Empty), patterns=[f(a)]))
             # congruence through extensionality: mentioning Eq(a, b) makes E-matching unfold its definition
             P.axioms.append(z3.ForAll([a, b], z3.Implies(th.Eq(a, b), f(a) == f(b)),
                                       patterns=[z3.MultiPattern(f(a), f(b))]))
